@@ -106,8 +106,11 @@ def validate_traces(module, cfg, traces, name, chunks=None, extraenv=None):
 
 
 def write_evidence(prop, data):
-    os.makedirs(os.path.join(VERIF, "evidence"), exist_ok=True)
-    path = os.path.join(VERIF, "evidence", prop + ".json")
+    # VERIF_EVIDENCE_DIR / VERIF_REPLAY_DIR: used when the machinery itself is being tested on a
+    # changed tree (seeded changes), so that the registered evidence is not overwritten
+    base = os.environ.get("VERIF_EVIDENCE_DIR", os.path.join(VERIF, "evidence"))
+    os.makedirs(base, exist_ok=True)
+    path = os.path.join(base, prop + ".json")
     with open(path, "w") as handle:
         json.dump(data, handle, indent=1, sort_keys=True)
     return path
@@ -115,10 +118,11 @@ def write_evidence(prop, data):
 
 def write_replay(prop, payload):
     import hashlib
-    os.makedirs(os.path.join(VERIF, "replay"), exist_ok=True)
+    base = os.environ.get("VERIF_REPLAY_DIR", os.path.join(VERIF, "replay"))
+    os.makedirs(base, exist_ok=True)
     blob = json.dumps(payload, sort_keys=True)
     name = "%s-%s.json" % (prop, hashlib.sha1(blob.encode("utf-8")).hexdigest()[:12])
-    path = os.path.join(VERIF, "replay", name)
+    path = os.path.join(base, name)
     with open(path, "w") as handle:
         handle.write(blob)
     return path
